@@ -5,7 +5,8 @@ lean/PyxModel/Oal, which also records the optional words that were written) or, 
 family, a bare token list.  The harness
   * prints the tree to tokens with its OWN printer (minimal parentheses from the `precedence` tuple of
     the workspace copy of bridgepoint/oal.py — not from PLY's generated tables),
-  * lays the tokens out as text (spaces, tabs, CR, newlines, /* */ and // comments between tokens; `NS::`
+  * lays the tokens out as text (spaces, tabs, CR, newlines, /* */ and // comments between tokens — block comments with inner stars and
+    slashes, ending in one to four stars, empty, multi-line, several per line, glued to the neighbouring tokens; `NS::`
     kept fused; `end if|for|while` one token with varied inner white space),
   * runs the real PLY lexer and parser on the text.
 
@@ -436,13 +437,34 @@ def y_body(b):
 _TIGHT = {'LPAREN', 'RPAREN', 'LSQBR', 'RSQBR', 'COMMA', 'SEMICOLON'}
 _WS = [' ', '  ', '\t', '\n', '\r\n', ' \n ', '\n\n', ' \t ']
 _COMMENTS = ['/* c */', '/**/', '/* a\n b */', '/* ** / */', '/* "x" \'y\' */', '/*x = 1;*/', '// line\n', '//\n',
-             '// if then end if; /* \n', '/* // */']
+             '// if then end if; /* \n', '/* // */', '/***/', '/****/', '/******/', '/* section **/', '/*** x ***/',
+             '/**\n * doc\n **/', '/* a * b ** c *** d ****/', '/*/ x */', '/* x = 1; **/', '/***\n***/', '// **/ x\n']
 _INNER = [' ', '  ', '\t', '\n', ' \n\t', '\r\n']
+_CBODY = ['c', 'x = 1;', ' ', '  ', '\n', '\n * ', '*', '**', '***', ' * ', '/', ' / ', '//', '/ *', '* /', '"s"', "'p'",
+          'end if', 'return y;', '-', '->', '::', 'a*b', '*x', 'x*', '\t', '\r\n', '(', ')', ';']
+
+
+def block_comment(rng):
+    """`/*` body `*`{1..4} `/` : the body is any mix of text, star runs, slashes and newlines that does not contain `*/`"""
+    body = ''.join(rng.choice(_CBODY) for _ in range(rng.choice([0, 0, 1, 1, 2, 3, 5])))
+    while '*/' in body:
+        body = body.replace('*/', '* /')
+    return '/*' + body + '*' * rng.choice([1, 1, 2, 2, 3, 4]) + '/'
+
+
+def comment(rng):
+    x = rng.random()
+    if x < 0.35:
+        return rng.choice(_COMMENTS)
+    if x < 0.9:
+        return block_comment(rng)
+    return '//' + ''.join(rng.choice(_CBODY + ['*/', '/*']) for _ in range(rng.choice([0, 1, 2]))).replace('\n', ' ').replace('\r', ' ') + '\n'
 
 
 def layout(toks, rng, mode):
     """tokens -> (text, tokens as they should be lexed).  mode 0: single spaces; 1: random white space;
-    2: random white space, comments, tight brackets"""
+    2: random white space, some comments, tight brackets; 3: a comment in (nearly) every gap, glued to the
+    token before it, to the token after it, or to both, often several comments and statements on one line"""
     out = []
     want = []
     n = len(toks)
@@ -462,23 +484,35 @@ def layout(toks, rng, mode):
             continue
         if mode == 2 and (k in _TIGHT or nk in _TIGHT) and rng.random() < 0.5:
             continue
+        if mode == 3:
+            if rng.random() < 0.15:
+                out.append(' ')
+                continue
+            c = comment(rng)
+            if rng.random() < 0.2:
+                c = c + rng.choice(['', ' ']) + comment(rng)
+            glue = rng.randrange(4)          # 0: ' c ', 1: 'c ', 2: ' c', 3: 'c'
+            before = '' if (glue in (1, 3) and not lx.endswith('/')) else ' '
+            after = '' if glue in (2, 3) else ' '
+            out.append(before + c + after)
+            continue
         parts = [rng.choice(_WS)]
         if mode == 2:
             r = rng.random()
             if r < 0.25:
-                parts.append(rng.choice(_COMMENTS))
+                parts.append(comment(rng))
                 if rng.random() < 0.5:
                     parts.append(rng.choice(_WS))
                 if rng.random() < 0.3 and not lx.endswith('/'):
                     parts.pop(0)          # the comment directly after the token
             elif r < 0.3:
-                parts += [rng.choice(_COMMENTS), rng.choice(_WS), rng.choice(_COMMENTS)]
+                parts += [comment(rng), rng.choice(_WS), comment(rng)]
         out.append(''.join(parts))
     text = ''.join(out)
-    if mode == 2 and rng.random() < 0.3:
-        text = rng.choice(_WS + _COMMENTS) + text
-    if mode == 2 and rng.random() < 0.3:
-        text = text + rng.choice(_WS + _COMMENTS)
+    if mode >= 2 and rng.random() < 0.3:
+        text = rng.choice(_WS + [comment(rng)]) + text
+    if mode >= 2 and rng.random() < 0.3:
+        text = text + rng.choice(_WS + [comment(rng)])
     return text, want
 
 
@@ -759,7 +793,7 @@ def gen_exhaustive(ctx, rounds):
         for mk in shapes:
             e = mk()
             n += 1
-            yield _case('exh3', wrap_expr(e, n + rnd, r), n * 131 + rnd, (n + rnd) % 3)
+            yield _case('exh3', wrap_expr(e, n + rnd, r), n * 131 + rnd, (n + rnd) % 4)
 
 
 def gen_spec(ctx):
@@ -769,20 +803,20 @@ def gen_spec(ctx):
     for i in range(16):
         for j in range(16):
             n += 1
-            yield {'fam': 'spec', 'spec': ['bb', i, j], 'lay': n, 'mode': n % 3}
+            yield {'fam': 'spec', 'spec': ['bb', i, j], 'lay': n, 'mode': n % 4}
     for u in range(6):
         for i in range(16):
             n += 1
-            yield {'fam': 'spec', 'spec': ['ub', u, i], 'lay': n, 'mode': n % 3}
-            yield {'fam': 'spec', 'spec': ['bu', i, u], 'lay': n + 7, 'mode': (n + 1) % 3}
+            yield {'fam': 'spec', 'spec': ['ub', u, i], 'lay': n, 'mode': n % 4}
+            yield {'fam': 'spec', 'spec': ['bu', i, u], 'lay': n + 7, 'mode': (n + 1) % 4}
         for v in range(6):
             n += 1
-            yield {'fam': 'spec', 'spec': ['uu', u, v], 'lay': n, 'mode': n % 3}
+            yield {'fam': 'spec', 'spec': ['uu', u, v], 'lay': n, 'mode': n % 4}
     for i in range(16):
         for j in range(16):
             n += 1
-            yield {'fam': 'spec', 'spec': ['bpb', i, j], 'lay': n, 'mode': n % 3}
-            yield {'fam': 'spec', 'spec': ['pbb', i, j], 'lay': n + 3, 'mode': (n + 1) % 3}
+            yield {'fam': 'spec', 'spec': ['bpb', i, j], 'lay': n, 'mode': n % 4}
+            yield {'fam': 'spec', 'spec': ['pbb', i, j], 'lay': n + 3, 'mode': (n + 1) % 4}
 
 
 def spec_case(spec):
@@ -823,7 +857,7 @@ def gen_random_expr(ctx, n):
     for i in range(n):
         r = rng.fork(i)
         e = rand_expr(r, r.choice([3, 4, 5, 6, 8]))
-        yield _case('rexpr', wrap_expr(e, i, r), i, r.choice([0, 1, 2, 2]))
+        yield _case('rexpr', wrap_expr(e, i, r), i, r.choice([0, 1, 2, 2, 3]))
 
 
 def gen_random_stmt(ctx, n):
@@ -834,7 +868,7 @@ def gen_random_stmt(ctx, n):
             blk = [rand_stmt(r, STMT_KINDS[i % len(STMT_KINDS)], 2, 2)]       # every production, several times
         else:
             blk = rand_block(r, r.choice([1, 2, 3]), r.choice([1, 2, 3]))
-        yield _case('rstmt', blk, i, r.choice([0, 1, 2, 2, 2]))
+        yield _case('rstmt', blk, i, r.choice([0, 1, 2, 2, 3, 3]))
 
 
 def gen_alt(ctx, n):
@@ -842,7 +876,7 @@ def gen_alt(ctx, n):
     rng = ctx.rng.fork('alt')
     for i in range(n):
         r = rng.fork(i)
-        yield {'fam': 'alt', 'alt': i % 5, 'lay': i, 'mode': r.choice([0, 1, 2]), 'seed': i}
+        yield {'fam': 'alt', 'alt': i % 5, 'lay': i, 'mode': r.choice([0, 1, 2, 3]), 'seed': i}
 
 
 def alt_case(case, r):
